@@ -4,7 +4,7 @@
    all inputs are closed and emptied and everything handed out was released (C07), at which point the inner discipline closes
    its output (the handlers leave their range loops, C19) and Err().
    The inner discipline is reduced to what Simple relies on (PrioV2.tla has its scheduling): at most H unreleased items,
-   output and feedback channels of capacity OutCap = max(H / 10, 1).
+   output and feedback channels of capacity OutCap = max(H / 10, number of inputs) (general.DivideWithMin in New).
 
    handler:  for prioritized := range output { Handle(item); Release(priority) }
 
@@ -12,10 +12,9 @@
    calls can run; Err() can close while Handle runs). *)
 EXTENDS Integers, FiniteSets, TLC
 
-CONSTANTS H, Items, ReleaseBeforeHandle
+CONSTANTS H, Items, OutCap, ReleaseBeforeHandle
 
 Handlers == 1..H
-OutCap == IF H \div 10 > 1 THEN H \div 10 ELSE 1
 
 VARIABLES hpc,        \* handler -> "recv", "handle", "release", "exit"
           inner,      \* "run", "closed" (output and Err() closed)
